@@ -49,7 +49,7 @@ def _compile_tu(cxx, opt, src_text, base, obj):
     if not os.path.exists(obj):
         with open(base + ".cpp", "w") as f:
             f.write(src_text)
-        rc, so, se = sh([cxx, "-std=c++17", opt, "-w", "-I", core.INCLUDE, "-c", base + ".cpp", "-o", obj + ".tmp"])
+        rc, so, se = sh([cxx, "-std=c++17", opt, "-w", "-I", core.INCLUDE, "-I", core.gen_dir(), "-c", base + ".cpp", "-o", obj + ".tmp"])
         if rc != 0:
             return None, se
         os.replace(obj + ".tmp", obj)
@@ -143,6 +143,9 @@ def run(tier, seed, flavour="plain"):
     for cname, cxx in COMPILERS:
         for opt in opts:
             for fac in G.FACILITIES:
+                # the two facilities that sweep whole type lists cost minutes to compile: one optimisation level in the quick tier
+                if tier == "quick" and fac[0].startswith("all-") and opt != "-O0":
+                    continue
                 jobs.append(("single", fac[0], fac[3], cname, opt, (job_single, (fac, cname, cxx, opt))))
             for order in perms:
                 jobs.append(("multi", "multi-tu order=%s" % (list(order),), False, cname, opt,
